@@ -160,6 +160,10 @@ def run_history(seed):
                 st = SimpleStatement(R.ddl_statement(uid))
             else:
                 st = SimpleStatement(R.uid_query(uid), is_idempotent=s['idem'], fetch_size=2 if s['kind'] == 'paged' else None)
+            if s['mode'] == 'callback':
+                # the paging callbacks are attached before any response can be processed (the application thread keeps the baton): the monitor
+                # attributes an outcome to the page fetch current when its first registration runs, so no fetch may start in between
+                saved, world.preempt = world.preempt, False
             starter.start(mon, st)
             mon.deadline = mon.epoch_start[0] + T + R.EPS
             mon.done = False
@@ -182,6 +186,8 @@ def run_history(seed):
                         mon.refetches = getattr(mon, 'refetches', 0) + 1
                         fetch_on(repeated=True)
                 mon.future.add_callbacks(pager_cb, pager_eb)
+            if s['mode'] == 'callback':
+                world.preempt = saved
 
         def judge(mon, hang=False):
             """at (or after) the deadline of the current page fetch, everything runnable has run"""
